@@ -35,6 +35,7 @@ PROPS["C05"] = {
     "trusted_base": ["go/packages + go/ssa construction and topology.ExtractTopology are exercised, not modelled"],
 }
 PROPS["C19"] = {
+    "lean_modules": ["SfwModel.Props.C19", "SfwModel.Props.C09"],
     "suites": [{"name": "sim", "quick": 1500, "thorough": 40000}, {"name": "diffreport", "quick": 8, "thorough": 150, "timeout": 3000}],
     "required_theorems": ["C19_sim_symm", "C19_sim_range", "C19_sim_self", "C19_sim_eq_one_of_eq_features",
                           "C19_mapSim_symm", "C19_typeListSim_symm", "C19_pairs_injective", "C19_pairs_above_threshold",
@@ -108,23 +109,48 @@ PROPS["C11"] = {
     "trusted_base": ["pebble.Snapshot isolation", "Go race detector (sampled schedules)"],
 }
 PROPS["C09"] = {
+    "lean_modules": ["SfwModel.Props.C09", "SfwModel.Props.C09Zipper", "SfwModel.Props.C09Facts"],
     "suites": [{"name": "diffreport", "quick": 10, "thorough": 150, "timeout": 3000}],
     "required_theorems": ["C09_old_partition", "C09_new_partition", "C09_same_name_paired", "C09_byName_iff",
-                          "C09_summary_counts"],
+                          "C09_summary_counts", "C09_lockstep_reachable", "C09_one_to_one", "C09_accounting",
+                          "C09_unguarded_breaks", "C09_single_writer", "C09_matchUsers_guarded"],
     "level_text": "Kernel-checked on the model of MatchFunctionsByTopology + ComputeDiff's bookkeeping: every old and every new function lies in exactly one of matched/added/removed (for all lists with distinct short names and every threshold), name-identical functions are paired by name, by-name pairs have equal names, summary counters equal the entry counts. Tie: generated old/new file pairs (kept/edited/renamed/same-shape renamed/added/removed functions, methods, closures) through the real cli.ComputeDiff; the matched/added/removed partition is compared with the Lean model fed the real function lists and topologies, and every clause is evaluated on the real report. Last clause (instruction level): the real Zipper is run on every paired function and its forward/reverse instruction maps (hook) are checked to be inverse bijections between same-kind, same-type instructions, with MatchedNodes and the added/removed lists recomputed from the maps.",
-    "level_note": "PARTIAL: the instruction-level clause (zipper matching is one-to-one and kind/type respecting, lists = unpaired instructions) is decided by the run-time oracle on the real maps, not by a theorem - the zipper is not modelled in Lean. Trusted: Lean kernel; float64 vs Rat similarity (near-ties skipped and counted); hook VerifInstrMaps.",
+    "level_note": "PARTIAL: for the instruction-level clause Lean proves the BOOKKEEPING (every sequence of guarded proposals keeps the two maps inverse, hence one-to-one; matched + removed = old, matched + added = new; the unguarded variant is refuted) and regenerated go/ast facts pin that recordInstrMatch is the only writer and that matchUsers checks both maps; WHICH pairs are proposed (areEquivalent: kind, type, operands) is decided by the run-time oracle on the real maps, not modelled. Trusted: Lean kernel; float64 vs Rat similarity (near-ties skipped and counted); hook VerifInstrMaps.",
     "partial": "zipper instruction matching is checked by oracle on the real maps, not proved",
     "trusted_base": ["go/ssa construction; topology.ExtractTopology (fed to the model as data)", "hook VerifInstrMaps (read-only accessor)"],
 }
 PROPS["C10"] = {
+    "lean_modules": ["SfwModel.Props.C10", "SfwModel.Props.C10Facts", "SfwModel.Props.C09"],
     "suites": [{"name": "repeat", "timeout": 3000}, {"name": "diffreport", "quick": 6, "thorough": 60, "timeout": 3000}],
     "needs_sfw": True,
-    "required_theorems": ["C10_match_perm_invariant", "C10_alerts_order_schedule_invariant", "C10_alerts_sorted",
+    "required_theorems": ["C10_match_perm_invariant", "C10_scan_sort_key_is_modelled", "C10_matcher_sorts_names", "C10_alerts_order_schedule_invariant", "C10_alerts_sorted",
                           "C10_sort_perm_invariant", "C10_slots_schedule_invariant", "C10_slot_content", "C10_old_key_not_total"],
     "level_text": "Kernel-checked, each for EVERY arrival order: the diff matcher's outcome (pairs, similarities, added, removed) is invariant under every permutation of the old and of the new function list (the Go maps' iteration order) for lists with distinct short names; scan's alert order (model of the less-function of RunScanLogic: a strict total order on the alert key, proved irreflexive/trichotomous/transitive) gives the same sorted list for any two permutations of the alerts, whereas the pre-fix key provably does not; check's index-addressed result slots end in the same array whatever order the workers finish in. Tie: the model is compared with the real ComputeDiff on generated pairs with tied candidates; and the real binary (built from the working tree) is run repeatedly at GOMAXPROCS 1, 2 and 16 on generated trees shaped to tie (identical shapes, identical short names across packages, a database indexed from the tree itself) for check, scan (Pebble, Pebble --exact, JSON) and diff; every stdout must be byte-identical.",
     "level_note": "PARTIAL: scheduling of the per-file goroutines and Go map iteration order are sampled by repetition (3 x 3 runs quick, 30 x 3 thorough), not enumerated; the theorem covers the matcher, the alert-sort and slot theorems cover scan/check ordering. Trusted: Lean kernel, go/packages load order.",
     "partial": "goroutine schedules and map orders are sampled by repeated runs",
     "trusted_base": ["Go runtime scheduler and map iteration (sampled)", "sort.SliceStable is a stable sort (modelled as mergeSort)"],
+}
+PROPS["C12"] = {
+    "suites": [{"name": "loops", "quick": 150, "thorough": 3000, "timeout": 3000}, {"name": "canon", "timeout": 3000}],
+    "lean_modules": ["SfwModel.Props.C12"],
+    "required_theorems": ["C12_closed_form", "C12_closed_form_mod_width", "C12_negate_sound", "C12_flags_sound_left",
+                          "C12_flags_sound_right", "C12_terminates", "C12_trip_count_sound", "C12_runs_unique",
+                          "C12_bodyCount_runs", "C12_formula_needs_step_sign", "C12_inclusive_equal_bounds_fixed"],
+    "level_text": "Kernel-checked: a variable updated by `i += step` on every trip holds start + k*step at the k-th header evaluation, and that value modulo 2^w on w-bit integers; the model of deriveTripCount's decision chain (operator negation by exit polarity, flags, IV on either side, dead/divergent pre-checks, step-sign requirement, the six closed forms with truncated division and max(0,.)) is sound: whenever the stored trip count evaluates to a number at given argument values the loop `for i := start; i cmp limit; i += step` executes its body exactly that many times (for `!=` under termination). The proof attempt exposed a real defect (inclusive test with equal constant bounds), now fixed and kept as a regression theorem. Tie: the model's loop analysis and rendered TripCount / closed forms are compared byte for byte with the real canonical IR on the corpus including 40+ generated counted loops of every form; independently the REAL exported SCEV trees are evaluated at 12 argument vectors and compared with header values and body counts recorded by a natively executed instrumented twin of each loop.",
+    "level_note": "PARTIAL: the link from Go SSA to the abstract counted loop (that the header phi really is updated by `+ step` on every back edge, that the exit test is the only exit) is go/ssa semantics and is validated by native execution, not proved. Trusted: Lean kernel; SCEV.eval as the reading of a SCEV tree (harness evalSCEV is its Go twin); wrap-around is outside the trip-count theorem (unbounded Int), inside the closed-form theorem.",
+    "partial": "SSA-to-counted-loop abstraction validated by native execution, not proved; trip counts proved on unbounded integers",
+    "trusted_base": ["go/ssa construction and the Go compiler (native twin)", "SCEV.eval / harness evalSCEV as the meaning of a trip-count expression"],
+}
+PROPS["C01"] = {
+    "suites": [{"name": "fpdet", "timeout": 3000}, {"name": "canon", "timeout": 3000}],
+    "lean_modules": ["SfwModel.Props.C01", "SfwModel.Props.C01Facts", "SfwModel.Props.C10"],
+    "required_theorems": ["C01_pool_history_independent", "C01_history", "C01_concurrent_results_fresh",
+                          "C01_reset_covers_fields", "C01_scratch_reset_covers_maps", "C01_no_process_state",
+                          "C01_map_ranges_reviewed", "C01_results_sorted"],
+    "level_text": "Kernel-checked pool-protocol theorems: for EVERY pool content (dirty objects included), every choice of sync.Pool.Get and every interleaving of concurrent callers, each result equals what a fresh canonicaliser computes, provided fullReset re-initialises the per-function state - and that proviso is re-derived from the source on every run: a go/ast extractor regenerates Generated/Facts.lean (struct fields, fields touched by fullReset/resetScratch, package-level variables, every `for range` over a map, the sort in FingerprintPackages) and `decide` theorems compare it with reviewed expectations. The canonicaliser itself is modelled as a pure function of an exported MiniSSA that carries no names, positions or paths, and reproduces the real CanonicalIR byte for byte on 900+ functions. Behavioural tie: the same generated sources are fingerprinted repeatedly, after unrelated functions, from 8 concurrent goroutines, from another directory and in another process at GOMAXPROCS 1/2/16; all (name, fingerprint, IR) triples must be identical.",
+    "level_note": "PARTIAL: go/packages + go/ssa determinism (SSA construction order, naming) and the Go scheduler are exercised, not modelled; map-range sites are reviewed by hand and pinned by the regenerated facts, so an unreviewed new site breaks the proof obligation rather than being analysed. Trusted: Lean kernel, the extractor (syntactic, no type information), the harness.",
+    "partial": "go/ssa construction determinism and the reviewed map-range sites are trusted/pinned, not proved order-insensitive in Lean",
+    "trusted_base": ["go/packages, go/ssa (deterministic construction)", "harness/extract (go/ast fact extractor)", "sync.Pool hands out an object to one goroutine at a time"],
 }
 _PENDING = "check not built yet in this round (planned: Lean model + theorems + differential, see DESIGN.md §5)"
 # entries with "unclaimed": True are runnable (./check Cxx) but not yet claimed in MANIFEST.json
